@@ -415,6 +415,16 @@ func genC10() *rapid.Generator[C10Case] {
 				if strings.HasPrefix(r.Text, " ") || strings.HasSuffix(r.Text, " ") {
 					r.Text = "a" + r.Text + "b"
 				}
+				if strings.HasPrefix(k, "id-") && rapid.IntRange(0, 2).Draw(t, "nonascii") == 0 {
+					// printable text outside ASCII is data like any other: shown as
+					// sent (Go's %q keeps it), not as \u escapes
+					w := rapid.SampledFrom([]string{"é", "シェル", "ü", "Ж", "café", "ß"}).Draw(t, "word8")
+					if rapid.Bool().Draw(t, "front") {
+						r.Text = w + r.Text
+					} else {
+						r.Text += w
+					}
+				}
 			case "c2-header", "host", "badhost-header":
 				r.Text = genVerbText(t, false)
 			case "badhost":
@@ -457,7 +467,11 @@ func TestC10(t *testing.T) {
 		c := genC10().Draw(rt, "case")
 		k, w, sites := runC10(t, c)
 		for _, r := range c.Reqs {
-			cc.Case(r.Kind+"|"+r.Text, strings.Contains(r.Text, "%"), "kind-"+r.Kind)
+			cls := []string{"kind-" + r.Kind}
+			if strings.HasPrefix(r.Kind, "id-") && strings.IndexFunc(r.Text, func(c rune) bool { return c > 127 }) >= 0 {
+				cls = append(cls, "id-with-non-ascii-text")
+			}
+			cc.Case(r.Kind+"|"+r.Text, strings.Contains(r.Text, "%"), cls...)
 			if cc.WantSample() {
 				cc.Sample(map[string]string{"kind": r.Kind, "client_text": r.Text})
 			}
